@@ -715,7 +715,11 @@ def def_method_result(ctx: Ctx, pid: str):
         rv = ex.vardef(h.rhs) or h.rhs
         if o is not None and h.domain == ("c", "top_comb") and h.fields == ("a", ("n", "AssignType"), "ALL") and is_call_to(rv, "method_def_helper"):
             bd = [b for b in ex.of(BodyDef)]
-            if bd and bd[0].out == h.lhs and rv[2][0] == fn.param(1) and rv[2][2] == ("arg", bd[0].bodyid):
+            # the only reason not to assign is a body function that returned nothing
+            g = py_guard(h)
+            ats = atoms_of(g)
+            ok_g = g is True or (len(ats) == 1 and ats[0][0] == "op" and ats[0][1] == "is" and set(ats[0][2:]) == {h.rhs, ("c", None)} and equivalent(g, f_not(A(ats[0]))) is None)
+            if bd and bd[0].out == h.lhs and rv[2][0] == fn.param(1) and rv[2][2] == ("arg", bd[0].bodyid) and ok_g:
                 ok = True
     ctx.check(ok, rule + ".result", assigns[0][1].site if assigns else fn.site, "def_method.out", found="; ".join(f"{tstr(h.domain)} += assign({tstr(h.lhs)}, {tstr(ex.vardef(h.rhs) or h.rhs)}, {tstr(h.fields) if h.fields else None})" for ex, h in assigns) or "none",
               required="top_comb += assign(out, <value returned by the body function applied to the argument>, fields=AssignType.ALL)")
@@ -746,6 +750,11 @@ def body_validate_arguments(ctx: Ctx, pid: str):
         has_val = f_not(A(pat("self.validate_arguments is None")))
         f = to_formula(r.value)
         if f is True:
+            # the result is one term of Cat(...).all(): "no objection" has to be all ones in its width, i.e. the 1-bit 1
+            v = r.value
+            one = v in (("c", 1), ("c", True)) or (v[0] == "call" and v[1] in (("n", "C"), ("n", "Const")) and v[2] in ((("c", 1),), (("c", 1), ("c", 1))) and not v[3])
+            ctx.check(one, rule + ".no-validator", r.site, "Body._validate_arguments.default", found=f"{tstr(v)} if {fstr(g)}",
+                      required="without a validator the result is the one-bit constant 1 (it is and-reduced with the other terms of runnable)")
             continue
         seen = True
         preds = [a for a in atoms_of(f) if a != en]
